@@ -759,8 +759,9 @@ class HistoryGen:
             faults = []
             for i, op in enumerate(self.ops):
                 if op["op"] in FAULTABLE and fr_rng.chance(fr):
-                    faults.append({"op": i, "nth": fr_rng.range(1, 4), "kind": fr_rng.choice(kinds),
-                                   "phase": fr_rng.choice(["early", "late"])})
+                    k_ = fr_rng.choice(kinds + ["rlimit_real"])
+                    faults.append({"op": i, "nth": fr_rng.range(1, 4), "kind": k_,
+                                   "phase": fr_rng.choice([1, 25, 400]) if k_ == "rlimit_real" else fr_rng.choice(["early", "late"])})
             rec["faults"] = faults
         return rec
 
@@ -805,6 +806,8 @@ class HistoryGen:
         kinds = fr.sample(self.p.get("fault_kinds", FAULT_KINDS), 2)
         if fr.chance(20):
             kinds.append("interrupt")
+        if fr.chance(self.p.get("real_rlimit_pct", 50)):
+            kinds.append("rlimit_real")
         rec["ops"] = self.ops
         rec["fault_enum"] = {"targets": [target], "kinds": kinds, "phases": ["early", "late"]}
         if self.p.get("max_positions"):
